@@ -10,7 +10,11 @@ GENERATORS = ['gen_codes']          # C12_Model uses the C05 model of BioSeq.rc,
 RULE = ('exhaustive strings over {A,T,G} up to length 6 (quick) / 9 (thorough; 29 523 strings x 3 configurations: default fwd, default '
         'both, one random mode) plus random DNA/RNA up to 600 columns assembled from random bases, injected start/stop codons on both '
         'strands and gap runs (also inside codons); rf in {fwd,bwd,both,int,tuple,list} x need_start in {always,once,never} x need_stop x '
-        'minlen; seq- and basket-level calls; non-trivial = distinct in-domain case reporting at least one ORF, keyed by '
+        'minlen; seq- and basket-level calls; plus 350 (quick) / 2 500 (thorough) HISTORIES on one living BioSeq object: repeated and '
+        'fresh-object searches, other rf orders / strand mixes / options, in-place edits (item and slice assignment, str.replace, data, '
+        'reverse, rc, complement, rc through a basket holding the object twice) followed by a search, mutation of earlier results '
+        '(pop, clear, append, reverse, location/rf/strand edits), other sequences with the same id and length, a basket holding the '
+        'object twice; every search is compared with the model on the current text, earlier results must stay unchanged; non-trivial = distinct in-domain case reporting at least one ORF, keyed by '
         '(mode, need_stop, gapped, strand(s) reported, minlen>0)')
 TRUSTED = ['CPython re (finditer over the rewritten codon alternations; modelled by a hand-written leftmost non-overlapping matcher and '
            'compared on every case), bisect, dict/list operations',
@@ -127,6 +131,8 @@ def gen_cases(rng, tier):
         s = _rand_seq(rng, n)
         cfg = _rand_cfg(rng) if rng.random() < 0.7 else dict(rf=rng.choice(['fwd', 'bwd', 'both']))
         cases.append(_mk(s, basket=rng.random() < 0.1, **cfg))
+    for _ in range(2500 if tier == 'thorough' else 350):
+        cases.append(_gen_hist(rng))
     return cases
 
 
@@ -174,7 +180,7 @@ def _call_safe(s, kw):
         return None, type(e).__name__
 
 
-def impl(case):
+def _one_impl(case):
     from sugar import BioSeq, BioBasket
     kw = _kwargs(case)
     res = _call(case['s'], kw)
@@ -202,12 +208,12 @@ def _rf_term(case):
     return '(RFtuple %s)' % coq_list([coq_z(x) for x in rf])
 
 
-def model_term(case):
+def _one_model_term(case):
     return 'out (run_C12 %s %s %s %s %s)' % (_rf_term(case), coq_N(NS.get(case['need_start'], 0)), coq_bool(bool(case['need_stop'])),
                                               coq_z(int(case['minlen'])), coq_bs(case['s']))
 
 
-def split_model(case, m):
+def _one_split_model(case, m):
     ok = isinstance(m, list) and len(m) == 2
     if not ok:
         return False, [False, m]
@@ -219,7 +225,7 @@ def _is_exc(v):
     return isinstance(v, dict) and 'e' in v
 
 
-def agree(case, implval, modelval):
+def _one_agree(case, implval, modelval):
     wf, mv = modelval
     if wf:
         return implval == mv
@@ -284,7 +290,7 @@ def _mapped(s, orfs):
     return out
 
 
-def spec(case, got):
+def _one_spec(case, got):
     if _is_exc(got):
         return 'raised %s' % got['e']
     s, L = case['s'], len(case['s'])
@@ -333,14 +339,14 @@ def spec(case, got):
     return None
 
 
-def nontrivial(case, got):
+def _one_nontrivial(case, got):
     if _is_exc(got) or not got:
         return None
     strands = ''.join(sorted(set(o[2] for o in got)))
     return [case['need_start'], case['need_stop'], '-' in case['s'], strands, case['minlen'] > 0]
 
 
-def histkey(case, got):
+def _one_histkey(case, got):
     n = len(case['s'])
     rf = case['rf']
     k = ['len=' + ('0-2' if n < 3 else '3-9' if n <= 9 else '10-99' if n < 100 else '100+'),
@@ -356,7 +362,7 @@ def histkey(case, got):
     return k
 
 
-def features(case, got):
+def _one_features(case, got):
     try:
         backward = any(f < 0 for f in _frames(case['rf']))
     except TypeError:
@@ -365,10 +371,305 @@ def features(case, got):
             'backward': backward, 'raises': got['e'] if _is_exc(got) else None}
 
 
-def python_snippet(case):
+def _one_python_snippet(case):
     return ("from sugar import BioSeq; print([(o.loc.start, o.loc.stop, str(o.loc.strand), o.meta.rf) "
             "for o in BioSeq(%r).find_orfs(**%r)])" % (case['s'], _kwargs(case)))
 
+
+
+# ----------------------------------------------------------------------------- histories (state independence)
+# A history case is {'steps': [...], 's': initial text}; one BioSeq object (id 'x') lives through all steps. The Gallina model is
+# pure, so the expected result of every search step is run_C12 on the CURRENT text, which the driver-independent simulation below
+# computes with plain string operations.
+
+EDITS = ('setitem', 'setslice', 'replace', 'data', 'reverse', 'rc', 'complement', 'basket_rc')
+FINDS = ('find', 'find_fresh', 'other', 'basket_twice')
+
+
+def _rc_py(t):
+    r = ''.join(COMP.get(c, c) for c in reversed(t))
+    return r.replace('T', 'U') if 'U' in t else r
+
+
+def _apply_edit(cur, st):
+    op = st['op']
+    n = len(cur)
+    if op == 'setitem':
+        if n == 0:
+            return cur
+        i = st['i'] % n
+        return cur[:i] + st['ch'][:1] + cur[i + 1:] if st['ch'] else cur
+    if op == 'setslice':
+        if n == 0:
+            return cur
+        i = st['i'] % n
+        t = st['t'][:n - i]
+        return cur[:i] + t + cur[i + len(t):]
+    if op == 'replace':
+        return cur.replace(st['a'], st['b']) if st['a'] else cur
+    if op == 'data':
+        return st['t']
+    if op == 'reverse':
+        return cur[::-1]
+    if op == 'rc':
+        return _rc_py(cur)
+    if op == 'complement':
+        return _rc_py(cur)[::-1]
+    if op == 'basket_rc':               # the same object twice in one basket: rc() is applied to it twice
+        return _rc_py(_rc_py(cur))
+    return cur
+
+
+def _cfg_case(s, cfg):
+    return _mk(s, rf=cfg.get('rf', 'fwd'), need_start=cfg.get('need_start', 'always'), need_stop=cfg.get('need_stop', True),
+               minlen=cfg.get('minlen', 0), rf_tuple=cfg.get('rf_tuple', False))
+
+
+def _hist_plan(case):
+    """[(kind, pseudo-case)] for the search steps of a history, in order, from the case dict alone"""
+    cur = case['s']
+    plan = []
+    for st in case['steps']:
+        op = st.get('op')
+        if op in EDITS:
+            cur = _apply_edit(cur, st)
+        elif op in FINDS:
+            plan.append((op, _cfg_case(st['s'] if op == 'other' else cur, st.get('cfg', {}))))
+    return plan
+
+
+def _rand_valid_cfg(rng):
+    while True:
+        cfg = _rand_cfg(rng)
+        rf = cfg['rf']
+        fr = _frames(rf) if not isinstance(rf, str) or rf in ('fwd', 'bwd', 'both') else None
+        if fr is not None and len(set(fr)) == len(fr) and all(-3 <= f <= 2 for f in fr):
+            return cfg
+
+
+def _rand_valid_seq(rng, n):
+    while True:
+        s = _rand_seq(rng, n)
+        if all(ch in 'ACGTU-' for ch in s):
+            return s
+
+
+def _gen_hist(rng):
+    n = rng.choice([6, 9, 12, 15, 20, 30, 45])
+    s = _rand_valid_seq(rng, n)
+    steps = []
+    cfg = _rand_valid_cfg(rng)
+    steps.append({'op': 'find', 'cfg': cfg})
+    for _ in range(rng.randint(3, 8)):
+        x = rng.random()
+        if x < 0.12:                                  # (a) same call again, same object
+            steps.append({'op': 'find', 'cfg': cfg})
+        elif x < 0.20:                                # (a) same call on a fresh object
+            steps.append({'op': 'find_fresh', 'cfg': cfg})
+        elif x < 0.32:                                # (b) same frames in another order / other strand mix
+            fr = [0, 1, 2, -1, -2, -3]
+            rng.shuffle(fr)
+            cfg = dict(cfg, rf=fr[:rng.randint(1, 6)], rf_tuple=rng.random() < 0.5)
+            steps.append({'op': 'find', 'cfg': cfg})
+            if rng.random() < 0.5:
+                cfg = dict(cfg, rf=list(reversed(cfg['rf'])))
+                steps.append({'op': 'find', 'cfg': cfg})
+        elif x < 0.44:                                # (b) other options on the same object
+            cfg = _rand_valid_cfg(rng)
+            steps.append({'op': 'find', 'cfg': cfg})
+        elif x < 0.66:                                # (c) in-place edit that keeps the length, then search again
+            op = rng.choice(['setitem', 'setslice', 'replace', 'data', 'reverse', 'rc', 'complement', 'basket_rc'])
+            st = {'op': op}
+            if op == 'setitem':
+                st.update(i=rng.randrange(100), ch=rng.choice('ACGT-'))
+            elif op == 'setslice':
+                st.update(i=rng.randrange(100), t=rng.choice(['ATG', 'TAA', 'TGA', 'CAT', 'TTA', '---', 'A-T-G', 'C']))
+            elif op == 'replace':
+                a, b = rng.choice([('A', 'C'), ('T', 'A'), ('G', 'T'), ('-', 'A'), ('C', '-'), ('TA', 'CC'), ('AT', 'TG')])
+                st.update(a=a, b=b)
+            elif op == 'data':
+                st.update(t=_rand_valid_seq(rng, len(s)))
+            steps.append(st)
+            steps.append({'op': 'find', 'cfg': cfg})
+        elif x < 0.80:                                # (d) mutate an earlier result
+            steps.append({'op': 'mutate_result', 'how': rng.choice(['pop', 'clear', 'shift', 'rf', 'append', 'strand', 'reverse'])})
+            steps.append({'op': 'find', 'cfg': cfg})
+        elif x < 0.92:                                # (f) another sequence with the same id and length
+            steps.append({'op': 'other', 's': _rand_valid_seq(rng, len(s)), 'cfg': cfg})
+            steps.append({'op': rng.choice(['find', 'find_fresh']), 'cfg': cfg})
+        else:                                         # (e) the same object held twice by a basket
+            steps.append({'op': 'basket_twice', 'cfg': cfg})
+    return {'s': s, 'steps': steps}
+
+
+def _hist_impl(case):
+    from sugar import BioSeq, BioBasket
+    seq = BioSeq(case['s'], id='x')
+    cur = case['s']
+    out = []
+    kept = []                                          # (ORFList, observation at the time) of results that were not mutated
+    for st in case['steps']:
+        op = st.get('op')
+        if op in FINDS:
+            kw = _kwargs(_cfg_case('', st.get('cfg', {})))
+            try:
+                if op == 'find':
+                    r = seq.find_orfs(**kw)
+                    o = _obs(r, 'x')
+                elif op == 'find_fresh':
+                    r = BioSeq(cur, id='x').find_orfs(**kw)
+                    o = _obs(r, 'x')
+                elif op == 'other':
+                    r = BioSeq(st['s'], id='x').find_orfs(**kw)
+                    o = _obs(r, 'x')
+                else:
+                    r = BioBasket([seq, seq]).find_orfs(**kw)
+                    o = _obs(r, 'x')
+                kept.append((r, o))
+                out.append(o)
+            except Exception as e:
+                from framework import canon_exc
+                out.append(canon_exc(e))
+            assert str(seq) == cur, 'a search changed the sequence'
+        elif op in EDITS:
+            n = len(cur)
+            if op == 'setitem' and n and st['ch']:
+                seq[st['i'] % n] = st['ch'][:1]
+            elif op == 'setslice' and n:
+                i = st['i'] % n
+                t = st['t'][:n - i]
+                seq[i:i + len(t)] = t
+            elif op == 'replace' and st['a']:
+                seq.str.replace(st['a'], st['b'])
+            elif op == 'data':
+                seq.data = st['t']
+            elif op == 'reverse':
+                seq.reverse()
+            elif op == 'rc':
+                seq.rc()
+            elif op == 'complement':
+                seq.complement()
+            elif op == 'basket_rc':
+                BioBasket([seq, seq]).rc()
+            cur = _apply_edit(cur, st)
+            assert str(seq) == cur, 'in-place edit %s gave %r, expected %r' % (op, str(seq), cur)
+        elif op == 'mutate_result' and kept:
+            r, o = kept.pop()
+            how = st.get('how')
+            if how == 'pop' and len(r):
+                r.pop(0)
+            elif how == 'clear':
+                del r[:]
+            elif how == 'append' and len(r):
+                r.append(r[0])
+            elif how == 'reverse':
+                r.reverse()
+            elif len(r):
+                ft = r[0]
+                if how == 'shift':
+                    ft.loc.start += 1
+                    ft.loc.stop += 2
+                elif how == 'rf':
+                    ft.meta.rf = 7
+                    ft.seqid = 'zz'
+                elif how == 'strand':
+                    ft.loc.strand = '-' if str(getattr(ft.loc.strand, 'value', ft.loc.strand)) == '+' else '+'
+            assert str(seq) == cur, 'mutating a result changed the sequence'
+    for r, o in kept:                                  # earlier results are not changed by later edits, searches or mutations
+        assert _obs(r, 'x') == o, 'an earlier result changed afterwards'
+    return out
+
+
+def _hist_expected(plan, steps_model):
+    exp = []
+    for (kind, _), m in zip(plan, steps_model):
+        r = m[1]
+        exp.append(r + r if kind == 'basket_twice' and isinstance(r, list) else r)
+    return exp
+
+
+def _is_hist(case):
+    return isinstance(case, dict) and 'steps' in case
+
+
+def impl(case):
+    return _hist_impl(case) if _is_hist(case) else _one_impl(case)
+
+
+def model_term(case):
+    if not _is_hist(case):
+        return _one_model_term(case)
+    terms = [_one_model_term(c)[len('out '):] for _, c in _hist_plan(case)]
+    return 'out (VL %s)' % coq_list(terms)
+
+
+def split_model(case, m):
+    if not _is_hist(case):
+        return _one_split_model(case, m)
+    plan = _hist_plan(case)
+    if not isinstance(m, list) or len(m) != len(plan):
+        return False, [False, m]
+    parts = [_one_split_model(c, x) for (_, c), x in zip(plan, m)]
+    wf = all(w for w, _ in parts)
+    return wf, [wf, [v for _, v in parts]]
+
+
+def agree(case, implval, modelval):
+    if not _is_hist(case):
+        return _one_agree(case, implval, modelval)
+    wf, ms = modelval
+    if not isinstance(ms, list) or not isinstance(implval, list):
+        return (not wf) and _is_exc(implval)
+    exp = _hist_expected(_hist_plan(case), ms)
+    if wf:
+        return implval == exp
+    return len(implval) == len(exp) and all(_is_exc(a) == _is_exc(b) for a, b in zip(implval, exp))
+
+
+def spec(case, got):
+    if not _is_hist(case):
+        return _one_spec(case, got)
+    if _is_exc(got):
+        return 'history raised %s' % got['e']
+    plan = _hist_plan(case)
+    if len(got) != len(plan):
+        return 'history returned %d results for %d searches' % (len(got), len(plan))
+    for k, ((kind, c), g) in enumerate(zip(plan, got)):
+        if kind == 'basket_twice' and isinstance(g, list):
+            if len(g) % 2 or g[:len(g) // 2] != g[len(g) // 2:]:
+                return 'search %d: a basket holding the sequence twice did not give the result twice: %r' % (k, g)
+            g = g[:len(g) // 2]
+        r = _one_spec(c, g)
+        if r:
+            return 'search %d (%s on %r): %s' % (k, kind, c['s'], r)
+    return None
+
+
+def nontrivial(case, got):
+    if not _is_hist(case):
+        return _one_nontrivial(case, got)
+    if _is_exc(got) or not any(isinstance(g, list) and g for g in got):
+        return None
+    return ['hist'] + sorted(set(st.get('op') + ':' + str(st.get('how', '')) for st in case['steps'] if st.get('op') != 'find'))
+
+
+def histkey(case, got):
+    if not _is_hist(case):
+        return _one_histkey(case, got)
+    return ['history'] + sorted(set('hist:' + st.get('op', '?') for st in case['steps']))
+
+
+def features(case, got):
+    if not _is_hist(case):
+        return _one_features(case, got)
+    return {'history': True, 'ops': sorted(set(st.get('op', '?') for st in case['steps']))}
+
+
+def python_snippet(case):
+    if not _is_hist(case):
+        return _one_python_snippet(case)
+    return ("import sys; sys.path.insert(0, '/verif/tools'); from props import c12; "
+            "print(c12._hist_impl(%r))" % (case,))
 
 LEVEL_TEXT = ('Machine-checked Coq theorems (13, all closed under the global context) about a line-by-line Gallina model of find_orfs, '
               '_frame_start, _inds2orf and the codon locator of match(). Every clause of the property text is a theorem about the model: '
@@ -389,7 +690,8 @@ LEVEL_NOTE = ('Trusted: Coq kernel/vm_compute, the correspondence harness, CPyth
               'find_orfs, _frame_start, _inds2orf, match() with the default start/stop patterns and gap="-" (the tie to /repo is the '
               'differential correspondence, i.e. testing). Tested only, not proved: the exact semantics of the once/never modes beyond '
               'invariants and the gapped/degapped correspondence (first-principles oracle), BioBasket.find_orfs = concatenation, custom '
-              'start/stop patterns (outside the claim). Measured statement coverage of the modelled functions in the quick tier: '
+              'start/stop patterns (outside the claim); state independence of find_orfs (no carried state, caches, aliasing of results, '
+              'in-place shortcuts) is tested by the history stream, the pure model being applied to the current text at every step. Measured statement coverage of the modelled functions in the quick tier: '
               'find_orfs 36/36, _frame_start 8/8, _inds2orf 12/12, BioSeq/BioBasket glue 11/11, match 49/53; the four missing lines of '
               'match() (cane.py:210 `sub = sub.data` for a BioSeq pattern, 223 `gaps = None` for gap=None/rf=None, 240 and 254 '
               '`return m` for matchall=False) cannot be reached through find_orfs, which always calls matchall with string patterns, '
